@@ -1554,7 +1554,11 @@ def b_bar_setitem(tier, rnd):
             continue
         for i in range(-len(b.bar) - 1, len(b.bar) + 1):
             cases.append((copy.deepcopy(b), i, NoteContainer(["B", "D"])))
-    return {"rule": "bars without rests from the 'bar_lift' family x every index incl. one out of range on each side", "cases": cases}
+        for i in range(len(b.bar)):
+            for names in (["E", "G"], ["G", "C"], ["E##", "F"], ["E", "D##"], ["Cb", "B#"]):
+                cases.append((copy.deepcopy(b), i, list(names)))
+    return {"rule": "bars without rests from the 'bar_lift' family x every index incl. one out of range on each side x a "
+                    "container; every index in range x five lists of two names (ascending, wrapping, enharmonic)", "cases": cases}
 
 
 @battery("nc_pairs")
